@@ -190,6 +190,7 @@ fn test(c: &Case, st: &mut Stats) -> TestResult {
         let drained = History {
             tcp: h.tcp,
             remote: h.remote,
+            tick: h.tick,
             ops: h.ops.iter().map(|o| if matches!(o, Op::Poll) { Op::Drain } else { o.clone() }).collect(),
         };
         let h = &drained;
